@@ -172,10 +172,8 @@ def handleC20 (j : Json) : Except String Verdict := do
     let spec := sameCount && bad.isEmpty
     let isCU (F : EFib) : Bool := F.fmt == .C && F.next == some .U
     let onlyCU := !bad.isEmpty && bad.all (fun e => isCU e.1 && e.1.n ≥ 2 &&
-      -- coordinates right, only the designated child wrong
-      (match e.2.scan with
-       | some rows => decide (rows.map (fun r => r.1) = e.1.ecoords.map some)
-       | none => false))
+      -- exactly the recorded behaviour: coordinates right, occupancy_so_far for every payload
+      e.2.scan == some (modelScan e.1))
     let tags := shapeTags ++ (if onlyCU then ["scanOnlyCoverU"] else []) ++
       (if allM.any (fun F => isCU F && F.n ≥ 2) then ["CoverU2"] else [])
     let why := if spec then "" else if onlyCU then "scan:C-over-U: every element designates the first child"
